@@ -299,8 +299,13 @@ def _header(src: str) -> str:
     return src
 
 
-def _container_body(sc: Scan, name: str, lo: int, hi: int, depth: int):
-    rx = re.compile(r'(?<![\w$])(?:object|class|trait)\s+' + re.escape(name) + r'(?![\w$])')
+def _container_bodies(sc: Scan, spec: str, lo: int, hi: int, depth: int):
+    """All template bodies (lo, hi, member depth) of containers called `spec` ('X', or 'object X' / 'class X' /
+    'trait X' to pick one of a class and its companion)."""
+    kind, _, name = spec.strip().rpartition(' ')
+    kinds = kind.split()[-1] if kind else '(?:object|class|trait)'
+    rx = re.compile(r'(?<![\w$])' + kinds + r'\s+' + re.escape(name) + r'(?![\w$])')
+    out = []
     for m in rx.finditer(sc.codetext, lo, hi):
         if sc.depth[m.start()] != depth:
             continue
@@ -309,9 +314,12 @@ def _container_body(sc: Scan, name: str, lo: int, hi: int, depth: int):
         j = m.end()
         while j < e:
             if sc.code[j] and sc.text[j] == '{' and sc.depth[j] == depth:
-                return j + 1, sc.matching_close(j), depth + 1
+                out.append((j + 1, sc.matching_close(j), depth + 1))
+                break
             j += 1
-    raise HarnessError(f'jvmslice: container {name!r} not found in {sc.origin}')
+    if not out:
+        raise HarnessError(f'jvmslice: container {spec!r} not found in {sc.origin}')
+    return out
 
 
 def source_path(scala_file) -> Path:
@@ -350,21 +358,19 @@ def scan_file(scala_file) -> Scan:
 def slice_defs(scala_file, names, within: str | None = None) -> list[str]:
     """Return the source text of every definition called one of `names`, in file order of each name
     (all overloads).  `within` = dotted path of enclosing objects/classes ('IRParser', 'Outer.Inner',
-    'stats' for `package object stats`); None = top level of the file.
+    'stats' for `package object stats`, 'object EType' to exclude the companion class); None = top level of the file.
     A name may carry a selector: 'fatal~errorId: Int' keeps only the overloads whose header (text up to
     the body) contains the given substring; 'fatal~!Truncatable' keeps those that do not."""
     sc = scan_file(scala_file)
-    lo, hi, depth = 0, len(sc.text), 0
+    regions = [(0, len(sc.text), 0)]
     if within:
         for part in within.split('.'):
-            lo, hi, depth = _container_body(sc, part, lo, hi, depth)
+            regions = [r for (lo, hi, depth) in regions for r in _container_bodies(sc, part, lo, hi, depth)]
     out = []
     for spec in names:
         name, _, sel = spec.partition('~')
         found = []
-        for m in _name_regex(name).finditer(sc.codetext, lo, hi):
-            if sc.depth[m.start()] != depth:
-                continue
+        for m in (m for (lo, hi, depth) in regions for m in _name_regex(name).finditer(sc.codetext, lo, hi) if sc.depth[m.start()] == depth):
             s, e = _definition_span(sc, m.start())
             src = sc.text[s:e]
             if sel:
